@@ -337,10 +337,6 @@ def over_acceptance_signature(text, failure, info):
     if tree is None:
         return None
     nodes = list(Walker().walk(tree))
-    if msg.startswith('unterminated regex') or msg.startswith('bad regex') or msg.startswith('empty regex'):
-        for n in nodes:
-            if type(n).__name__ == 'Regex' and any(c in LT for c in n.value):
-                return 'c03.regex_with_line_terminator'
     if msg.startswith('identifier or digit directly after numeric literal'):
         return 'c03.number_followed_by_identifier'
     # postfix ++/-- separated from its operand by a line terminator (restricted production ignored)
